@@ -435,11 +435,11 @@ F14L == With(F14LPats, Flags(TRUE, FALSE, FALSE, FALSE, FALSE))
 (* it.                                                                     *)
 (***************************************************************************)
 F8pCase(pat, alpha, n) == [ast |-> pat, fl |-> NoFlags, hays |-> StringsUpTo(alpha, n)]
-F8p == { F8pCase(Cat(<<A, B, A, B, Cls(FALSE, <<IC(cc)>>)>>), {ca, cb, cc}, IF Thorough THEN 8 ELSE 7),
+F8p == { F8pCase(Cat(<<A, B, A, B, Cls(FALSE, <<IC(cc)>>)>>), {ca, cb, cc}, 7),
          F8pCase(Cat(<<A, B, A, B, Esc("d")>>), {ca, cb, c1}, 7),
          F8pCase(Alt(<<Cat(<<A, B, A, B, Chr(cc), Dot>>), Cat(<<A, B, A, B, Chr(cb), Dot>>)>>), {ca, cb, cc}, 7),
          F8pCase(Cat(<<Chr(cEacute), Chr(cEacute), Cls(FALSE, <<IC(cc)>>)>>), {cEacute, cc}, 6),
-         F8pCase(Cat(<<A, A, B, A, A, Cls(FALSE, <<IC(cc)>>)>>), {ca, cb, cc}, IF Thorough THEN 9 ELSE 7) }
+         F8pCase(Cat(<<A, A, B, A, A, Cls(FALSE, <<IC(cc)>>)>>), {ca, cb, cc}, 7) }
 
 (***************************************************************************)
 (* F20: patterns for the Searcher contract: empty matches at every         *)
